@@ -22,6 +22,10 @@
 (* failure of its coverage prints Known("C08:req-mixed-k-merge-bounds")     *)
 (* (known_findings.json) and the trace continues; its other clauses (n,     *)
 (* bounds ordered around the estimate) are hard checks.                     *)
+(* REQ groups "req-ordered-k<k>-b<band>": sorted streams whose accurate-end   *)
+(* items arrive first, one sketch or two merged halves, both modes; band b   *)
+(* = items (b k, (b+1) k] from the accurate end.  Hard clause on every REQ   *)
+(* trial: an exactness claim (zero-width 3-sd bounds) must be exactly right. *)
 (* Failure fractions: observed <= p + 6 sqrt(p (1 - p) / T) + 0.02 with     *)
 (* p the claimed failure rate and T the number of TRIALS of the group (the  *)
 (* queries of one trial are correlated).  Any seed passes on a tree where   *)
@@ -34,7 +38,7 @@ ISqrt(x) == CHOOSE r \in 0..46341 : r * r <= x /\ x < (r + 1) * (r + 1)
 Allowed(p4, t) == p4 + 6 * ISqrt((p4 * (10000 - p4)) \div t) + 200
 Count(s, P(_)) == Cardinality({i \in DOMAIN s : P(i)})
 Abs(x) == IF x < 0 THEN 0 - x ELSE x
-Zero == [T |-> 0, q |-> 0, exc |-> 0, pmfexc |-> 0, fail |-> <<0, 0, 0>>, sum |-> <<>>, sq |-> <<>>]
+Zero == [T |-> 0, q |-> 0, exc |-> 0, pmfexc |-> 0, fail |-> <<0, 0, 0>>, sum |-> <<>>, sq |-> <<>>, band |-> -1]
 Get(g) == IF g \in DOMAIN acc THEN acc[g] ELSE Zero
 Out(e, s) == Count(e.truth, LAMBDA i : ~(e["lb" \o s][i] - 1 <= e.truth[i] /\ e.truth[i] <= e["ub" \o s][i] + 1))
 Coverage(a) == /\ a.fail[1] * 10000 <= Allowed(3173, a.T) * a.q
@@ -44,17 +48,34 @@ Coverage(a) == /\ a.fail[1] * 10000 <= Allowed(3173, a.T) * a.q
 BoundsOrdered(e) == \A i \in DOMAIN e.truth :
   /\ e.lb3[i] <= e.lb2[i] /\ e.lb2[i] <= e.lb1[i] /\ e.lb1[i] <= e.est[i]
   /\ e.est[i] <= e.ub1[i] /\ e.ub1[i] <= e.ub2[i] /\ e.ub2[i] <= e.ub3[i]
+\* REQ exactness claim: a bound pair of zero width at 3 standard deviations (lb = estimate = ub) says the rank is exact, so the
+\* TRUE rank must equal it - integer comparison of rank * n, no statistics.  req_sketch documents the ranks within
+\* INIT_NUM_SECTIONS * k = 3k items of the accurate end as exact (the part of level 0 that is never compacted).
+Claims(e, i) == e.lb3D[i] = e.estD[i] /\ e.ub3D[i] = e.estD[i]
+WrongClaims(e) == {i \in DOMAIN e.truth : Claims(e, i) /\ e.estW[i] # e.trueW[i]}
+\* distance of the ESTIMATE from the accurate end, in items
+EstDist(e, i) == IF e.hra THEN e.n - e.estW[i] ELSE e.estW[i]
+\* recorded known finding C08:req-exact-boundary: the exactness test is applied to the ESTIMATED rank; an item just outside the exact
+\* region (true distance 3k + 1) whose estimate falls exactly on the boundary 3k is claimed exact although it is one item off
+OnBoundary(e, i) == EstDist(e, i) = 3 * e.k /\ (e.estW[i] - e.trueW[i] = 1 \/ e.trueW[i] - e.estW[i] = 1)
+ExactClaims(e) ==
+  LET bad == WrongClaims(e) IN
+  IF bad = {} THEN TRUE
+  ELSE IF e.group = "req-mixed-k" THEN Known("C08:req-mixed-k-merge-bounds")
+  ELSE /\ Chk("req-exact-rank-claim", \A i \in bad : OnBoundary(e, i))
+       /\ Known("C08:req-exact-boundary")
 TBegin == IsEvent("Begin") /\ acc' = <<>>
 TTrial == IsEvent("Trial") /\ LET e == Log[l]  a == Get(e.group) IN
   /\ Chk("n", e.sn = e.n)
   /\ Chk("req-bounds-ordered", e.kind = "bounds" => BoundsOrdered(e))
+  /\ (e.kind = "bounds" => ExactClaims(e))
   /\ Chk("harness:mixed-k-group-is-bounds", e.group = "req-mixed-k" => e.kind = "bounds")
   /\ acc' = (e.group :>
       (CASE e.kind = "eps" ->
               [a EXCEPT !.T = @ + 1, !.q = @ + Len(e.errs), !.exc = @ + Count(e.errs, LAMBDA i : e.errs[i] > e.eps),
                         !.pmfexc = @ + (IF e.pmferr > e.epspmf THEN 1 ELSE 0)]
          [] e.kind = "bounds" ->
-              [a EXCEPT !.T = @ + 1, !.q = @ + Len(e.truth),
+              [a EXCEPT !.T = @ + 1, !.q = @ + Len(e.truth), !.band = e.band,
                         !.fail = <<@[1] + Out(e, "1"), @[2] + Out(e, "2"), @[3] + Out(e, "3")>>]
          [] e.kind = "bias" ->
               [a EXCEPT !.T = @ + 1,
@@ -70,6 +91,10 @@ TVerdict == IsEvent("Verdict") /\ LET e == Log[l] IN
        \* continues; in every other group the same clause is a hard check
        /\ IF g = "req-mixed-k"
           THEN IF Coverage(a) THEN TRUE ELSE Known("C08:req-mixed-k-merge-bounds")
+          \* ordered streams (accurate end first), bands beyond the exact region: recorded known finding C08:req-ordered-stream-bounds -
+          \* for several k the published bounds cover ~77 % at 3 standard deviations in the band (4..5] k; recognised only where at
+          \* most 35 % of a band's queries fail at 3 standard deviations, anything worse (or in the exact bands 0..2) is a violation
+          ELSE IF a.band >= 3 /\ ~Coverage(a) /\ a.fail[3] * 100 <= 35 * a.q THEN Known("C08:req-ordered-stream-bounds")
           ELSE /\ Chk("req-bounds-1-std-dev", a.fail[1] * 10000 <= Allowed(3173, a.T) * a.q)
                /\ Chk("req-bounds-2-std-dev", a.fail[2] * 10000 <= Allowed(455, a.T) * a.q)
                /\ Chk("req-bounds-3-std-dev", a.fail[3] * 10000 <= Allowed(27, a.T) * a.q)
